@@ -5,6 +5,7 @@ import SqlgrepModel.Drivers.Reader
 import SqlgrepModel.Drivers.Print
 import SqlgrepModel.Drivers.Extract
 import SqlgrepModel.Drivers.Join
+import SqlgrepModel.Drivers.Lex
 /- Line protocol driver: `<kind> <payload…>` per line in, one answer line out. -/
 open Sqlgrep
 
@@ -26,6 +27,8 @@ def dispatch (line : String) : String :=
     | "intr" => Drivers.Join.handleIntr args
     | "followi" => Drivers.Join.handleFollowI args
     | "onres" => Drivers.Join.handleOnRes args
+    | "tok" => Drivers.Lex.handleTok args
+    | "near" => Drivers.Lex.handleNear args
     | _ => "unknown-kind"
   | _ => "bad-line"
 
